@@ -56,6 +56,8 @@ class M:
         m = M(list(self.entries), self.finite, self.sized, self.indexable,
               self.listable, self.items, self.bykey, self.copyable, self.batched,
               self.ordered, self.keysok)
+        if hasattr(self, 'findexable'):
+            m.findexable = self.findexable
         for k, v in kw.items():
             setattr(m, k, v)
         return m
@@ -156,8 +158,20 @@ def _need(cond, why):
         raise Unsupported(why)
 
 
-def apply(m, op, operand=None):
+def _apply_op(m, op, operand=None):
     k = op[0]
+    if k in ('reshuffle', 'localshuffle'):
+        # per-epoch random order: only used by monitors that compare two real,
+        # equally seeded pipelines; the order is not modelled
+        if not m.finite:
+            raise Skip
+        if k == 'reshuffle':
+            _need(m.indexable and m.sized, 'reshuffle needs len and indexing')
+        else:
+            _need(m.sized, 'local shuffle offers len of its input')
+        return m.clone(indexable=False, listable=False,
+                       items=m.items and (m.listable or k == 'localshuffle'),
+                       ordered=False)
     if k == 'mapfail':
         # a map whose function raises for some ids; only used by monitors that
         # compare two real pipelines (the values of failing ids are not modelled)
@@ -195,6 +209,19 @@ def apply(m, op, operand=None):
         new = m.clone(entries=ent, items=m.items and m.listable)
         new.bykey = m.bykey and m.listable and new.labelstate == 'unique'
         return new
+    if k == 'concat3':
+        # ds.concatenate(mid, last): two extra parts (the middle one is empty)
+        return apply(apply(m, ('concat', None), operand[0]), ('concat', None), operand[1])
+    if k == 'groupby':
+        if not m.finite:
+            raise Skip
+        _need(m.indexable and m.sized, 'groupby selects by index')
+        mod, pick = op[1], op[2]
+        ent = [(a, v) for a, v in m.entries if sid(v) % mod == pick]
+        if not ent:
+            raise Skip              # no such group
+        return m.clone(entries=ent, items=m.items and m.listable,
+                       bykey=m.bykey and m.listable)
     if k in ('concat', 'intersperse'):
         o = operand
         if k == 'intersperse':
@@ -381,7 +408,49 @@ def apply(m, op, operand=None):
     raise ValueError(f'unknown op {op!r}')
 
 
+TRANSPARENT = ('map', 'parmap', 'apply_eager', 'mapfail', 'batch', 'batch_map', 'items',
+               'copy', 'freeze', 'tile')
+NOT_FROZEN_INDEXABLE = ('filter', 'unbatch', 'catch', 'prefetch1', 'prefetcht',
+                        'apply_lazy', 'localshuffle', 'cycle')
+
+
+def apply(m, op, operand=None):
+    """Model of `op` applied to `m`.  Also maintains `findexable`: whether a
+    copy(freeze=True) of the dataset is indexable (a per-epoch reshuffle is not
+    indexable itself, its frozen copy is) - this is what catch() and the pool
+    prefetch need."""
+    k = op[0]
+    fi = getattr(m, 'findexable', m.indexable)
+    if k in ('catch', 'prefetcht') and fi and not m.indexable:
+        # judge the operation on the frozen view of its input
+        new = _apply_op(m.clone(indexable=True), op, operand)
+    else:
+        new = _apply_op(m, op, operand)
+    if k == 'reshuffle':
+        new.findexable = fi
+    elif k in TRANSPARENT:
+        new.findexable = fi
+    elif k in ('concat', 'intersperse', 'zip', 'key_zip'):
+        new.findexable = fi and getattr(operand, 'findexable', operand.indexable)
+    elif k == 'concat3':
+        new.findexable = fi and all(getattr(o, 'findexable', o.indexable) for o in operand)
+    elif k in NOT_FROZEN_INDEXABLE:
+        new.findexable = False
+    else:
+        new.findexable = new.indexable
+    return new
+
+
+
 BINARY = ('concat', 'intersperse', 'zip', 'key_zip')
+EMPTY_DICT = {'src': ('dict', 0, 'pickle', 'e', 200), 'ops': []}
+EMPTY_LIST = {'src': ('list', 0, 'pickle', 'e', 200), 'ops': []}
+LAST_DICT = {'src': ('dict', 2, 'pickle', 'r', 300), 'ops': []}
+LAST_LIST = {'src': ('list', 2, 'pickle', 'r', 300), 'ops': []}
+
+
+def concat3_operands(kind):
+    return (EMPTY_DICT, LAST_DICT) if kind == 'dict' else (EMPTY_LIST, LAST_LIST)
 
 
 def run(prog, upto=None):
@@ -399,5 +468,7 @@ def run(prog, upto=None):
                 operand = apply(m, ('map', 'z'))
             else:
                 operand = run(spec)
+        elif op[0] == 'concat3':
+            operand = tuple(run(x) for x in concat3_operands(op[1]))
         m = apply(m, op, operand)
     return m
